@@ -12,14 +12,26 @@ From LV Require Import Model.Extent Model.Field Model.Geometry Model.Fft Gen.Ext
 Ltac destr_prods :=
   repeat match goal with x : ?T |- _ => lazymatch eval hnf in T with prod _ _ => destruct x end end.
 Ltac src_norm := cbv beta iota zeta delta [fst snd].
+(* one spelling per comparison (a > b is b < a, a >= b is b <= a): fewer distinct conditions to destruct *)
+Ltac cmp_norm := rewrite ?Z.gtb_ltb, ?Z.geb_leb.
 Ltac split_eq :=
   repeat match goal with
          | |- (_, _) = (_, _) => f_equal
          | |- Some _ = Some _ => f_equal
          | |- Ok _ = Ok _ => f_equal
          end.
+(* destruct the condition of an [if] that contains no other [if]: innermost first, so that no conditional is
+   left behind inside a hypothesis where lia would treat it as an opaque term *)
+Ltac destr_inner_if :=
+  match goal with
+  | |- context[if ?b then _ else _] =>
+      lazymatch b with
+      | context[if _ then _ else _] => fail
+      | _ => destruct b eqn:?
+      end
+  end.
 Ltac src_finish :=
-  src_norm; repeat (destr_if; src_norm); split_eq; first [reflexivity | lia | exfalso; lia].
+  src_norm; cmp_norm; repeat (destr_inner_if; src_norm); split_eq; first [reflexivity | lia | exfalso; lia].
 
 (* ------------------------------------------------------------------ lentil/extent.py *)
 Lemma src_array_extent_ok : forall shape shift : Z * Z,
@@ -128,7 +140,7 @@ Lemma src_insert_clip_ok : forall fshape foffset oshape : Z * Z,
 Proof.
   intros; destr_prods. unfold src_insert_clip, insert_clip_model, reconcile, clip_nonempty. src_norm.
   repeat match goal with |- context[?a / 2] => let q := fresh "q" in set (q := a / 2); clearbody q end.
-  repeat (destr_if; cbv beta iota zeta delta [fst snd o_lo o_hi f_lo f_hi]);
+  cmp_norm. repeat (destr_inner_if; cbv beta iota zeta delta [fst snd o_lo o_hi f_lo f_hi]);
     split_eq; first [reflexivity | lia | exfalso; lia].
 Qed.
 
@@ -167,8 +179,8 @@ Lemma src_pad_bounds_fft_ok : forall n m N M : Z,
   (s_lo (pad_axis n N), s_hi (pad_axis n N), t_lo (pad_axis n N), t_hi (pad_axis n N),
    s_lo (pad_axis m M), s_hi (pad_axis m M), t_lo (pad_axis m M), t_hi (pad_axis m M)).
 Proof.
-  intros; unfold src_pad_bounds, pad_axis; src_norm.
-  repeat (destr_if; cbv beta iota zeta delta [fst snd s_lo s_hi t_lo t_hi]);
+  intros; rewrite src_pad_bounds_ok; unfold pad_src_lo, pad_src_hi, pad_dst_lo, pad_dst_hi, pad_axis; src_norm; cmp_norm.
+  repeat (destr_inner_if; cbv beta iota zeta delta [fst snd s_lo s_hi t_lo t_hi]);
     split_eq; first [reflexivity | lia | exfalso; lia].
 Qed.
 
